@@ -280,6 +280,9 @@ KERNEL_BNET = {
     "nested": "A, A\nB, A & B | !A & C\nC, B | C & !A",
     # a source input above a network with a motif-avoidant attractor: the input's valuation nodes are stubs / skip nodes holding an MAA
     "input_maa": "D, D\nA, (!A & !B) | C\nB, (!A & !B) | C\nC, A & B",
+    # several source SCCs with trivial diagrams (oscillators) feeding a downstream component with its own trap space: the
+    # "nothing was attached, expand normally" branch of the SCC expansion
+    "two_osc_feed": "a, !a\nb, !b\nc, (a & b) | c",
     # two source SCCs, one of them with a succession diagram of depth 2 (SCC attachment below an already expanded root)
     "two_scc_deep": "x1, x2\nx2, x1 | x3\nx3, x3 & x1\ny1, y2\ny2, y1",
     # a source SCC whose sub-diagram has a motif-avoidant attractor in a non-root, non-minimal node
